@@ -327,7 +327,7 @@ func run(c *core.Ctx) {
 		}
 	}
 	r := c.Rng("gen")
-	n := c.N(100000, 4000000) / c.NShards
+	n := c.N(600000, 8000000) / c.NShards
 	for i := 0; i < n; i++ {
 		ti := r.Intn(len(targets))
 		q := `"`
